@@ -1,4 +1,5 @@
 // Unit `path`: src/dir.rs validate_path (the path-validation clause of C19).
+#![feature(allocator_api)]
 use vstd::prelude::*;
 verus! {
 
